@@ -49,7 +49,7 @@ symx, num, poly, box_syms = c14.symx, c14.num, c14.poly, c14.box_syms
 # carries the fix: the model runs the repaired behaviour (coq/Grad/Grad.v gfixes) and the finding
 # is no longer excused.  F12 itself has no switch (its repair changes a test of the suite).
 # Override: VERIF_C15_FIXED="b,c".
-FIXED = {"F12b": False, "F12c": False}
+FIXED = {"F12b": True, "F12c": True}   # repaired upstream: f60eace, a2eee3e
 if os.environ.get("VERIF_C15_FIXED") is not None:
     _on = {x.strip().lower() for x in os.environ["VERIF_C15_FIXED"].split(",") if x.strip()}
     assert _on <= {"b", "c"}, _on
